@@ -256,6 +256,9 @@ if 'List' in dir(pg):
   _dom('DictSetItemAcc', pg.Dict, '__setitem__', _any('key', 'value'), kind='writable')
   _dom('DictDelItemAcc', pg.Dict, '__delitem__', _any('name'), kind='writable')
   _dom('ObjectSetAttrAcc', pg.Object, '__setattr__', lambda b: dict(name='x', value=b.any('value')), kind='writable')
+  # Functor overrides attribute deletion (unbinding an argument): same accessor rule
+  _dom('FunctorDelAttrAcc', pg.symbolic.Functor, '__delattr__', _any('name'), kind='writable',
+       module='pyglove.core.symbolic.functor')
 
 
 # ---------------------------------------------------------------------------
